@@ -843,6 +843,21 @@ func runGROWSHRINK(c *Ctx) {
 					continue
 				}
 			}
+			// both operands are read afresh on every pass: the body of the loop changes the thresholds (and, in
+			// Delete, follows a size update), so a value hoisted in front of the loop is stale from the second pass on
+			if inCycle(tcall.Block()) {
+				staleOp := ""
+				for _, o := range []ssa.Value{bin.X, bin.Y} {
+					if li, isI := ir.ResolveCell(o).(ssa.Instruction); isI && li.Parent() == holder && !inCycle(li.Block()) {
+						staleOp = pathDesc(ir.Sym(o))
+					}
+				}
+				if staleOp != "" {
+					c.Violation(entry, P.InstrPos(bin), "height loop tests a value read before the loop",
+						staleOp+" is read once in front of the loop although each pass changes the thresholds: from the second pass on the test compares with the old threshold and the tree gains or loses the wrong number of levels")
+					return nil, false
+				}
+			}
 			// does the test see the size before or after this operation's own update? Both are located in the
 			// entry point: the update store, and the instruction through which the test is reached
 			ld, _ := ir.ResolveCell(sizeV).(*ssa.UnOp)
@@ -928,7 +943,8 @@ func runGROWSHRINK(c *Ctx) {
 		}
 	}
 	// (2) both loops consult the root's keys
-	consults := func(entry, target *ssa.Function) (bool, string) {
+	stale := ""
+	consults := func(entry, target *ssa.Function, needFresh bool) (bool, string) {
 		holder, tcs := holderOf(entry, target)
 		if holder == nil {
 			return false, ""
@@ -949,7 +965,15 @@ func runGROWSHRINK(c *Ctx) {
 				for _, o := range []ssa.Value{x.X, x.Y} {
 					if call, ok := o.(*ssa.Call); ok {
 						if b, ok := call.Call.Value.(*ssa.Builtin); ok && b.Name() == "len" {
-							if _, f, ok := nodeSliceRoot(call.Call.Args[0]); ok && f == "Key" {
+							if base, f, ok := nodeSliceRoot(call.Call.Args[0]); ok && f == "Key" {
+								// the node looked at must be the *current* root: the loop body replaces the root, so a
+								// node picked up before the loop is the old one from the second pass on
+								if needFresh {
+									if bi, isI := ir.ResolveCell(base).(ssa.Instruction); isI && bi.Parent() == fn && !inCycle(bi.Block()) {
+										stale = "the node whose keys are counted (" + pathDesc(ir.Sym(base)) + ") is read once before the loop, but the loop body installs a new root"
+										continue
+									}
+								}
 								return true, "len(node.Key)"
 							}
 						}
@@ -1009,13 +1033,16 @@ func runGROWSHRINK(c *Ctx) {
 		}
 		return false, ""
 	}
-	if ok, how := consults(ins, grow); ok {
+	if ok, how := consults(ins, grow, false); ok {
 		c.OK(P.Pos(ins.Pos()), "Insert's growth loop consults the root's keys", how, false)
 	} else {
 		c.Violation(ins, P.Pos(ins.Pos()), "growth decided by size alone", "Insert's growth loop no longer asks whether a root key belongs above the current height")
 	}
-	if ok, how := consults(del, shrink); ok {
+	if ok, how := consults(del, shrink, true); ok {
 		c.OK(P.Pos(del.Pos()), "Delete's shrink loop consults the root's keys", how, false)
+	} else if stale != "" {
+		c.Violation(del, P.Pos(del.Pos()), "shrink loop looks at a stale root",
+			stale+": after the first level is removed the test still sees the old top node, so one key-less level makes the loop remove every level (or none) — equal contents, different roots")
 	} else {
 		c.Violation(del, P.Pos(del.Pos()), "shrinking decided by size alone",
 			"Insert raises the height only when a root key belongs higher (height = min(highest key layer, size rule)), but Delete lowers it only by size: after the last key of the top layer is deleted the tree keeps a key-less root and its height, while a tree built from the same entries is one level lower — equal contents, different roots")
